@@ -246,6 +246,7 @@ def apply_restart(sess, op):
             sess.twin_lost = True
             sess.stats["restart_changed_reports_in_non_C12_run"] += 1
     if op.get("replace", True):
+        sess.sut_objs = None  # the reloaded system is made of the library's own objects
         sess.sut = re
         sess.stats["restart_replaced_sut"] += 1
         sess.dirty = True
@@ -456,6 +457,18 @@ def apply_observe(sess, op):
             if d:
                 sess._twin_fail("final results vs edits-only twin: " + d, op)
             sess.stats["pristine_twin_compares"] += 1
+        m_ = sess.model
+        if "C17" in E and sess.sut_objs is not None and not getattr(sess, "model_lost", False) and all(n in sess.sut_objs for n in m_.order) and not any(m_.comps[n].get("via_file") for n in m_.order):
+            # the component objects the caller handed over are still what they
+            # were: a second system built from those very objects reports the
+            # configuration of a freshly built one
+            r_ = sess._guard(lambda: sess.build_fresh(objs=sess.sut_objs))
+            f_ = sess._guard(lambda: sess.build_fresh())
+            if r_[0] == "ok" and f_[0] == "ok":
+                d = sess.snap_diff(sess.snapshot(f_[1]), sess.snapshot(r_[1]))
+                if d:
+                    sess.fail("C17", "analysis-changed-a-component-object", "a system built from the component objects that were handed to the analysed system differs from a freshly built one: " + d)
+                sess.stats["retained_object_twin_compares"] += 1
 
 
 def _count_nontrivial(sess, table):
